@@ -23,7 +23,7 @@ N("c01-n-rename-key-param","C01",R,"func (r *RIBHolder) doAddIPv6(pfx string, ne
 N("c01-n-switch-to-if","C01",R,"\t\tswitch {\n\t\tcase err != nil:\n\t\t\t// the check told us this was fatal for this entry -> we should return.\n\t\t\treturn false, nil, err\n\t\tcase !ok:\n\t\t\t// otherwise, we just didn't do this operation.\n\t\t\treturn false, nil, nil\n\t\t}\n\t}\n\n\tr.doDeleteIPv4(e.GetPrefix())","\t\tif err != nil {\n\t\t\treturn false, nil, err\n\t\t}\n\t\tif !ok {\n\t\t\treturn false, nil, nil\n\t\t}\n\t}\n\n\tr.doDeleteIPv4(e.GetPrefix())",note="tagless switch → if chain")
 
 # ---------------- C02
-M("c02-member-lookup-wrong-key","C02",R,"\t\t\tif _, ok := niRIB.GetNextHop(n.GetIndex()); !ok {","\t\t\tif _, ok := niRIB.GetNextHop(g.GetId()); !ok {","CAN-RESOLVE")
+M("c02-member-lookup-wrong-key","C02",R,"\t\t\tif _, ok := niRIB.GetNextHop(n.GetIndex()); !ok {","\t\t\tif _, ok := niRIB.GetNextHop(n.GetIndex() + g.GetId()); !ok {","CAN-RESOLVE")
 M("c02-missing-member-accepted","C02",R,"\t\t\t\t// this is not an error - it's just that we can't resolve this seemingly\n\t\t\t\t// valid looking NHG at this point.\n\t\t\t\treturn false, nil","\t\t\t\tcontinue","CAN-RESOLVE")
 M("c02-v6-ignores-group-ni","C02",R,"\t\treturn nhgResolvable(niRIB, i.GetNextHopGroupNetworkInstance(), i.GetNextHopGroup())\n\t}\n\n\tfor _, i := range caft.LabelEntry {","\t\treturn nhgResolvable(niRIB, \"\", i.GetNextHopGroup())\n\t}\n\n\tfor _, i := range caft.LabelEntry {","CAN-RESOLVE")
 M("c02-new-ni-without-check","C02",R,"\tif r.ribCheck {\n\t\trhOpt = append(rhOpt, RIBHolderCheckFn(r.checkFn))\n\t}\n\tif r.disableForwardReferences {","\tif r.disableForwardReferences {","CHECK-WIRING")
@@ -198,7 +198,15 @@ M("c19-add-too-small","C19","compliance/election.go","\tdefer electionID.Add(2)"
 N("c19-n-explicit-flush","C19","compliance/mpls.go","\tdefer flushServer(c, t)","\tdefer func() { flushServer(c, t) }()",note="deferred closure calling flushServer")
 
 # ---------------- round 3 rules
-M("c03-dup-member-counted-twice","C03",R,"\t\tif seen[nh.GetIndex()] {\n\t\t\tcontinue\n\t\t}\n\t\tseen[nh.GetIndex()] = true\n","","NHG-REFERENCES",note="revert of fix 7206dbc")
+M("c10-wait-for-producer-before-stop","C10",S,"\tvar done bool\n\n\tfor !done {","\tvar done bool\n\tdefer func() {\n\t\tif !done {\n\t\t\t<-doneCh\n\t\t}\n\t}()\n\n\tfor !done {","STOP-SIGNAL",note="deferred wait declared after the deferred close runs before it")
+N("c10-n-close-in-closure","C10",S,"\tdefer close(stopCh)\n","\tdefer func() { close(stopCh) }()\n",note="deferred closure closing the stop channel")
+M("c17-mpls-index-unguarded","C17",K,"\t\t\tif _, ok := v.Mpls.GetLabel().(*aftpb.Afts_LabelEntryKey_LabelUint64); ok {\n\t\t\t\tni.mpls[v.Mpls.GetLabelUint64()] = r\n\t\t\t}","\t\t\tif v.Mpls != nil {\n\t\t\t\tni.mpls[v.Mpls.GetLabelUint64()] = r\n\t\t\t}\n\t\t\tvar _ *aftpb.Afts","GET-ENTRIES-LOOKUP")
+M("c17-allowunimpl-strips-all-details","C17",K,"\t\t\tif ignoreUnimplDets && wo.Code() == codes.Unimplemented || ignoreDets {","\t\t\tif ignoreUnimplDets || ignoreDets {","STATUS-OPTIONS")
+M("c19-allowunimpl-strips-all-details","C19",K,"\t\t\tif ignoreUnimplDets && wo.Code() == codes.Unimplemented || ignoreDets {","\t\t\tif ignoreUnimplDets || ignoreDets {","STATUS-OPTIONS")
+N("c17-n-named-condition","C17",K,"\t\t\tif ignoreUnimplDets && wo.Code() == codes.Unimplemented || ignoreDets {","\t\t\tunimplAlt := wo.Code() == codes.Unimplemented && ignoreUnimplDets\n\t\t\tif ignoreDets || unimplAlt {",note="named sub-condition, commuted")
+M("c18-update-only-when-higher","C18",F,"\tg.parent.currentElectionID = eid\n\tg.parent.c.Q(&spb.ModifyRequest{ElectionId: eid})","\tif g.parent.currentElectionID == nil || g.parent.currentElectionID.Low < low {\n\t\tg.parent.currentElectionID = eid\n\t}\n\tg.parent.c.Q(&spb.ModifyRequest{ElectionId: eid})","CURRENT-ELECTION-ID")
+M("c03-orig-read-after-install","C03",R,"\tvar orig *aft.Afts_Ipv6Entry\n\tif r.ipv6Exists(e.GetPrefix()) {\n\t\torig = r.retrieveIPv6(e.GetPrefix())\n\t}\n","\tvar orig *aft.Afts_Ipv6Entry\n\thad := r.ipv6Exists(e.GetPrefix())\n\tdefer func() { _ = had }()\n","INSTALL-REFS",note="never hands back the replaced entry")
+M("c03-dup-member-counted-twice","C03",R,"\t\tif seen[nh.GetIndex()] {\n\t\t\tcontinue\n\t\t}\n\t\tseen[nh.GetIndex()] = true\n","\t\t_ = seen\n","NHG-REFERENCES",note="revert of fix 7206dbc")
 M("c03-dup-seen-never-recorded","C03",R,"\t\tseen[nh.GetIndex()] = true\n","","NHG-REFERENCES")
 N("c03-n-member-set-two-loops","C03",R,"\tseen := map[uint64]bool{}\n\tfor _, nh := range new.NextHop {\n\t\tif seen[nh.GetIndex()] {\n\t\t\tcontinue\n\t\t}\n\t\tseen[nh.GetIndex()] = true\n\t\tniRIB.incNHRefCount(nh.GetIndex())\n\t}","\tmembers := map[uint64]bool{}\n\tfor _, nh := range new.NextHop {\n\t\tmembers[nh.GetIndex()] = true\n\t}\n\tfor idx := range members {\n\t\tniRIB.incNHRefCount(idx)\n\t}",note="set of member ids built first, then one increment per id")
 N("c03-n-dec-by-map-key","C03",R,"\t\tfor _, nh := range original.NextHop {\n\t\t\tniRIB.decNHRefCount(nh.GetIndex())\n\t\t}","\t\tfor idx := range original.NextHop {\n\t\t\tniRIB.decNHRefCount(idx)\n\t\t}",note="the installed map's key is the member id")
@@ -206,7 +214,7 @@ M("c12-zero-index-same-pass","C12",R,"\t\t\t\treturn false, fmt.Errorf(\"invalid
 M("c09-fatal-op-continues","C09",S,"\t\t\terrCh <- err\n\t\t\treturn false\n","\t\t\terrCh <- err\n","FATAL-ENDS-SESSION")
 M("c09-loop-ignores-domodify-verdict","C09",S,"\t\t\t\tif !s.doModify(cid, in.Operation, resultChan, errCh) {\n\t\t\t\t\t// A fatal error was reported, the RPC is being torn down so\n\t\t\t\t\t// nothing further from this client is handled.\n\t\t\t\t\treturn\n\t\t\t\t}\n","\t\t\t\ts.doModify(cid, in.Operation, resultChan, errCh)\n","TABLE-DISPATCH")
 M("c01-fatal-op-continues","C01",S,"\t\t\terrCh <- err\n\t\t\treturn false\n","\t\t\terrCh <- err\n","FATAL-ENDS-SESSION")
-M("c06-results-sorted","C06",S,"\treturn &spb.ModifyResponse{\n\t\tResult: results,\n\t}, nil","\tsort.Slice(results, func(i, j int) bool { return results[i].Id < results[j].Id })\n\treturn &spb.ModifyResponse{\n\t\tResult: results,\n\t}, nil","RESULT-MAPPING",note="needs the sort import: does-not-typecheck unless present")
+M("c06-results-sorted","C06",S,"\treturn &spb.ModifyResponse{\n\t\tResult: results,\n\t}, nil","\tif n := len(results); n > 1 {\n\t\tresults[0], results[n-1] = results[n-1], results[0]\n\t}\n\treturn &spb.ModifyResponse{\n\t\tResult: results,\n\t}, nil","RESULT-MAPPING",note="re-orders the built list")
 M("c06-oks-truncated","C06",S,"\tfor _, ok := range oks {\n\t\tlog.V(2)","\tif len(oks) > 1 {\n\t\toks = oks[:1]\n\t}\n\tfor _, ok := range oks {\n\t\tlog.V(2)","RESULT-MAPPING")
 
 json.dump(V, open('/verif/selftest/variants.json','w'), indent=1)
